@@ -303,6 +303,10 @@ func main() {
 	for _, c := range seqCorpus {
 		runSeqCase(r, 0, c)
 	}
+	// the concurrent part first: it runs in a child process, so whatever a broken tree does to it (fatal error, hang) its
+	// findings are on file before the sequential cases run in this process (where a panic in a goroutine the library
+	// itself starts - OnUpdateOnce's `go unsubscribe()` - cannot be recovered)
+	runStressInChild(r)
 	n := 8000 * r.Scale
 	for i := 0; i < n; i++ {
 		rng, sub := r.Rng.Fork()
@@ -312,6 +316,5 @@ func main() {
 			runSeqCase(r, sub, genSeqxCase(rng, 30))
 		}
 	}
-	runStressInChild(r)
 	r.Finish()
 }
